@@ -1009,8 +1009,20 @@ func execG1(op string, a []string) string {
 		r := cvRecv()
 		if op == "tsm" {
 			r.TripleScalarMulBasepointVartime(x, A, y, C)
+			// the receiver may be either point argument
+			alA, alC := cvCopy(A), cvCopy(C)
+			alA.TripleScalarMulBasepointVartime(x, alA, y, C)
+			alC.TripleScalarMulBasepointVartime(x, A, y, alC)
+			if alA.IsSmallOrder() != r.IsSmallOrder() || alC.IsSmallOrder() != r.IsSmallOrder() {
+				return "alias-mismatch"
+			}
 		} else {
 			r.ExpandedTripleScalarMulBasepointVartime(x, cvExpanded(A, a[0]), y, C)
+			alC := cvCopy(C)
+			alC.ExpandedTripleScalarMulBasepointVartime(x, cvExpanded(A, a[0]), y, alC)
+			if alC.IsSmallOrder() != r.IsSmallOrder() {
+				return "alias-mismatch"
+			}
 		}
 		return b2s(r.IsSmallOrder())
 	case "msm", "msmvt":
@@ -1024,10 +1036,21 @@ func execG1(op string, a []string) string {
 		if !ok1 || !ok2 {
 			return "err"
 		}
-		if op == "msm" {
-			return cvBoth(cvRecv().MultiscalarMul(ss, ps), nil)
+		// aliased variant: the receiver is the last operand point itself
+		var al *curve.EdwardsPoint
+		if len(ps) > 0 && len(ps) <= 64 {
+			ps2, _ := cvPtArgs(a[2+ns:])
+			al = ps2[len(ps2)-1]
+			if op == "msm" {
+				al.MultiscalarMul(ss, ps2)
+			} else {
+				al.MultiscalarMulVartime(ss, ps2)
+			}
 		}
-		return cvBoth(cvRecv().MultiscalarMulVartime(ss, ps), nil)
+		if op == "msm" {
+			return cvBoth(cvRecv().MultiscalarMul(ss, ps), al)
+		}
+		return cvBoth(cvRecv().MultiscalarMulVartime(ss, ps), al)
 	case "xmsmvt":
 		var n [4]int
 		for i := range n {
